@@ -65,38 +65,77 @@ class Defs:
                 pass
 
 
+def _reads_with_field(rv):
+    """[(local, first field projection or None)] read by an rvalue (field-sensitive on the first projection element)"""
+    ops, places = rv_operands(rv)
+    out = []
+    for o in ops:
+        pl = op_place(o)
+        if pl is not None:
+            p = pl.get('p', [])
+            out.append((pl['l'], p[0] if p and p[0].startswith('f:') else None))
+            out += [(int(x[2:]), None) for x in p if x.startswith('i:')]
+    for pl in places:
+        p = pl.get('p', [])
+        out.append((pl['l'], p[0] if p and p[0].startswith('f:') else None))
+    return out
+
+
 def backward_slice(body, local, defs=None, through_calls=True, max_nodes=4000, stop=None):
     """All (bb, idx, node) definition nodes that may contribute to the value of `local`
     (flow-insensitive over the defs of each temp; MIR temps are almost always single-assignment).
+    Field-sensitive for aggregates: reading `_t.f:k` of a local built by a tuple/struct aggregate follows operand k only.
     `through_calls`: follow the arguments of calls whose result flows in.
     `stop(node)`: predicate; when true the node is included but its inputs are not followed."""
     defs = defs or Defs(body)
+    seen = set()
     seen_locals = set()
     out = []
-    work = [local]
+    out_ids = set()
+    work = [(local, None)]
     while work and len(out) < max_nodes:
-        l = work.pop()
-        if l in seen_locals:
+        l, fld = work.pop()
+        if (l, fld) in seen:
             continue
+        seen.add((l, fld))
         seen_locals.add(l)
         for site in defs.full.get(l, []) + defs.partial.get(l, []):
             bb, j, node = site
-            out.append(site)
+            if id(node) not in out_ids:
+                out_ids.add(id(node))
+                out.append(site)
             if stop is not None and stop(node):
                 continue
             if 'rv' in node:
-                work += rv_read_locals(node['rv'])
+                rv = node['rv']
+                if fld is not None and rv['k'] == 'agg' and not node['lhs'].get('p'):
+                    # follow only the selected field of the aggregate
+                    idx = None
+                    name = fld[2:]
+                    if rv.get('ak') == 'adt' and name in rv.get('fields', []):
+                        idx = rv['fields'].index(name)
+                    elif name.isdigit() and int(name) < len(rv['ops']):
+                        idx = int(name)
+                    if idx is not None:
+                        pl = op_place(rv['ops'][idx])
+                        if pl is not None:
+                            p = pl.get('p', [])
+                            work.append((pl['l'], p[0] if p and p[0].startswith('f:') else None))
+                        continue
+                if fld is not None and node['lhs'].get('p') and node['lhs']['p'][0].startswith('f:') and node['lhs']['p'][0] != fld:
+                    continue   # a write to a different field of the same local
+                work += _reads_with_field(rv)
             elif node.get('k') == 'call':
                 if through_calls:
                     for a in node['args']:
                         pl = op_place(a)
                         if pl is not None:
-                            work.append(pl['l'])
+                            work.append((pl['l'], None))
                 fp = node.get('fp')
                 if fp is not None:
                     pl = op_place(fp)
                     if pl is not None:
-                        work.append(pl['l'])
+                        work.append((pl['l'], None))
     return out, seen_locals
 
 
